@@ -176,7 +176,9 @@ INVALID_VCF = {
 }
 
 NAMES_SIMPLE = ["a", "b", "c", "ev1", "ev2", "item-3", "x_y"]
-NAMES_URLSIG = ["a b", "per%cent", "p%20q", "ha#sh", "qu?ery", "se;mi", "pl+us", "am&p", "eq=ual", "at@sign", "col:on", "til~de", "par(en)", "com,ma", "quo'te"]
+NAMES_URLSIG = ["a b", "per%cent", "p%20q", "ha#sh", "qu?ery", "se;mi", "pl+us", "am&p", "eq=ual", "at@sign", "col:on", "til~de", "par(en)", "com,ma", "quo'te",
+                # dot files are ordinary members (only .xandikos and .git are the server's)
+                ".dot", ".hid.den"]
 NAMES_UNICODE = ["caf\u00e9", "\u65e5\u672c", "\u00fcber", "na\u00efve \u00e9t\u00e9",
                  # not in Unicode normal form C: decomposed accent, singleton, conjoining jamo
                  "cafe\u0301", "\u212bngstrom", "\u1112\u1161\u11ab"]
